@@ -23,12 +23,18 @@ EXTENDS Integers, Sequences, FiniteSets, TLC, Json, SequencesExt
 
 CONSTANTS Codecs,      \* layouts enumerated in this run ("ikey" = the internal-key universe for the order check)
           Mutate,      \* TRUE: also emit the mutated frames
+          ExtBoth,     \* TRUE: varint-boundary extension on top of the all-highest vector too
           KAlphabet, KMaxLen, KCFs, KVers   \* internal-key universe (user keys over KAlphabet up to KMaxLen)
 
 U64D == <<"Z", "ONE", "U32M", "U64M">>
 U32D == <<"Z", "ONE", "U32M">>
 LenD == <<"L0", "L1", "LMAX">>
 NEL  == <<"L1", "LMAX">>
+\* varint length boundaries: V<k>M = 2^(7k)-1, V<k> = 2^(7k), V<k>P = 2^(7k)+1; N<n> = a body of n filler bytes
+VB64 == <<"V1M", "V1", "V1P", "V2M", "V2", "V2P", "V3M", "V3", "V3P", "V4M", "V4", "V4P", "V5M", "V5", "V5P",
+          "V6M", "V6", "V6P", "V7M", "V7", "V7P", "V8M", "V8", "V8P", "V9M", "U63", "V9P">>
+VB32 == SubSeq(VB64, 1, 12)
+NB   == <<"N127", "N128", "N129", "N16383", "N16384", "N16385">>
 LenMut == {"Z", "ONE", "LP1", "U31", "U63", "U64M"}
 UvMut  == {"U31", "U63", "U64M"}
 CntMut == {"Z", "ONE", "LP1", "U31", "U63", "U64M"}
@@ -104,8 +110,18 @@ BVA(fs) == {LoVec(fs), HiVec(fs)} \cup
 
 Values(c) == LET fs == Layout(c) IN IF ProdSize(fs, 1) <= 1200 THEN Prod(fs, 1) ELSE BVA(fs)
 
+\* extension: every integer field at every varint length boundary, every body at the lengths whose length
+\* prefix changes size - one field at a time on top of the all-lowest (and, if Both, all-highest) vector
+ExtDom(f) == IF f.t \in {"uv", "u32be"} /\ f.d = U64D THEN VB64
+             ELSE IF f.t \in {"uv", "u32be"} /\ f.d = U32D THEN VB32
+             ELSE IF f.t \in {"raw", "tail"} /\ Len(f.d) > 1 THEN NB ELSE <<>>
+ExtValues(c) == LET fs == Layout(c) IN
+    UNION {{[b EXCEPT ![i] = ExtDom(fs[i])[j]] : b \in (IF ExtBoth THEN {LoVec(fs), HiVec(fs)} ELSE {LoVec(fs)}), j \in 1..Len(ExtDom(fs[i]))}
+              : i \in 1..Len(fs)}
+
 Fields(c, vals) == [i \in 1..Len(vals) |-> [n |-> Layout(c)[i].n, t |-> Layout(c)[i].t, of |-> Layout(c)[i].of, v |-> vals[i]]]
 ValidFrame(c, vals) == [codec |-> c, valid |-> TRUE, mut |-> "", count |-> CountOf(c), fields |-> Fields(c, vals)]
+ExtFrame(c, vals)   == [codec |-> c, valid |-> TRUE, mut |-> "ext", count |-> CountOf(c), fields |-> Fields(c, vals)]
 
 MutDom(t) == CASE t = "len" -> LenMut [] t = "len32" -> L32Mut [] t = "cnt" -> CntMut [] t = "uv" -> UvMut [] OTHER -> {}
 \* mutation bases: the extreme vectors (small and large bodies)
@@ -114,7 +130,7 @@ MutFrames(c) == UNION {UNION {{[codec |-> c, valid |-> FALSE, mut |-> Layout(c)[
                                 fields |-> Fields(c, [b EXCEPT ![i] = m])] : m \in MutDom(Layout(c)[i].t)}
                                    : i \in 1..Len(Layout(c))} : b \in MutBases(c)}
 
-Frames(c) == {ValidFrame(c, v) : v \in Values(c)} \cup (IF Mutate /\ c # "valuestruct" THEN MutFrames(c) ELSE {})
+Frames(c) == {ValidFrame(c, v) : v \in Values(c)} \cup {ExtFrame(c, v) : v \in ExtValues(c) \ Values(c)} \cup (IF Mutate /\ c # "valuestruct" THEN MutFrames(c) ELSE {})
 
 \* (b) order: the driver encodes every key of this universe with kv.InternalKey and reports utils.CompareKeys
 \* for every pair; CodecPropTrace.tla compares the signs with KeyOrder!KeyLess
